@@ -1,6 +1,7 @@
 package main
 
 import (
+	"bufio"
 	"encoding/json"
 	"flag"
 	"fmt"
@@ -19,7 +20,24 @@ func init() { cmds["conc"] = cmdConc }
 func cmdConc(args []string) error {
 	fs := flag.NewFlagSet("conc", flag.ExitOnError)
 	rounds := fs.Int("rounds", 3, "repetitions of every scenario")
+	gf := fs.String("groups", "", "write one observation group per concurrent call (sequential result, concurrent result) for spec/Rel.tla")
 	fs.Parse(args)
+	var gw *bufio.Writer
+	if *gf != "" {
+		f, err := os.Create(*gf)
+		if err != nil {
+			return err
+		}
+		defer f.Close()
+		gw = bufio.NewWriter(f)
+		defer gw.Flush()
+	}
+	short := func(s string) string {
+		if len(s) > 3 && s[:3] == "ok:" {
+			return fmt.Sprintf("ok:%x", len(s))
+		}
+		return s
+	}
 	exprs := []string{
 		`s matches "^sc"`, `s not matches "x$" and m.s matches "x"`, `any m3 as k, v { k matches "^[ab]$" }`, `s matches "("`,
 		`all a.b.c as v { v.x == 1 and v.y != 2 }`, `any a.b.c.d.e as v { v.x == 2 }`, `all a.b.c.d.e.f as _, v { v.x != 9 }`, `any a.b.c.d.e.f.g as k, v { v.x == 3 and k != 1 }`,
@@ -122,6 +140,12 @@ func cmdConc(args []string) error {
 										}
 										mu.Lock()
 										calls++
+										if gw != nil && (calls%7 == 0 || got != want[di]) {
+											b, _ := json.Marshal(map[string]interface{}{"rel": "same", "obs": []string{short(want[di]), short(got)},
+												"info": map[string]interface{}{"scenario": name, "expr": src}})
+											gw.Write(b)
+											gw.WriteByte('\n')
+										}
 										if got != want[di] && len(bad) < 40 {
 											bad = append(bad, mm{Scenario: name, Expr: src, Want: trunc(want[di]), Got: trunc(got)})
 										}
